@@ -143,7 +143,7 @@ impl Cluster {
         (committee_file, key_file, store_path, params_file)
     }
 
-    async fn boot(&mut self, i: usize) {
+    pub async fn boot(&mut self, i: usize) {
         let (c, k, s, p) = self.write_config(i);
         let node = Node::new(&c, &k, &s, Some(p)).await.expect("boot node");
         let mut rx = node.commit;
